@@ -816,7 +816,7 @@ func (fc *FnCtx) evalCall(env *Env, e *Expr) (Val, error) {
 				continue
 			}
 			fc.q.fresh++
-			rv := fmt.Sprintf("ur_%d", fc.q.fresh)
+			rv := fmt.Sprintf("ur_%d__%s", fc.q.fresh, sanitize(a)) // the array's name travels in the bound variable (stable obligation labels)
 			var out []string
 			bs := bases
 			if strings.HasPrefix(a, "M_") {
